@@ -136,6 +136,10 @@ namespace hist
             out.push_back(this->cur().capacity_left());
             out.push_back(this->cur().next_capacity());
         }
+        const char* walk(size_t, size_t& reachable) override
+        {
+            return this->cur().verif_walk(reachable);
+        }
 
     private:
         size_t node_size_, block_size_;
@@ -298,6 +302,12 @@ namespace hist
         {
             this->cur().reserve(size, cap);
             return true;
+        }
+        const char* walk(size_t size, size_t& reachable) override
+        {
+            if (!size || size > this->cur().max_node_size())
+                size = this->cur().max_node_size();
+            return this->cur().verif_walk(size, reachable);
         }
 
     private:
